@@ -157,25 +157,24 @@ Proof.
   split; [tw_crush|split; [cred_crush|deb_crush]].
 Qed.
 
-(* ---- PROPOSAL_FUND ---- NO sign guard in the code: creation-free and authorised for every amount, but a negative amount
-   is ADDED to the escrow record: credits >= 0 only under the complement of the trigger *)
+(* ---- PROPOSAL_FUND ---- guards: OLT (Validate), v > 0 (handler, 65cdcf3) *)
 Lemma proposal_fund_facts known cur f prop v ops : effect_proposal_fund known cur f prop v = Some ops ->
-  no_creation (ops ++ fee_ops payer fp fee) /\ takes_only_from (ops ++ fee_ops payer fp fee) [f; payer] /\
-  (0 <= v -> credits_ok (ops ++ fee_ops payer fp fee)).
+  no_creation (ops ++ fee_ops payer fp fee) /\ credits_ok (ops ++ fee_ops payer fp fee) /\
+  takes_only_from (ops ++ fee_ops payer fp fee) [f; payer].
 Proof.
   unfold effect_proposal_fund, is_olt. intros H. open_effect H. split_guards.
   assert (cur = CUR_OLT) by lia. subst cur.
-  split; [tw_crush|split; [deb_crush|intros; cred_crush]].
+  split; [tw_crush|split; [cred_crush|deb_crush]].
 Qed.
 
-(* ---- PROPOSAL_WITHDRAW_FUNDS ---- NO sign guard in the code: creation-free for every amount; authority and credits >= 0 only for v >= 0 *)
+(* ---- PROPOSAL_WITHDRAW_FUNDS ---- guards: OLT (Validate), v > 0 (handler, 7960770): only the funder's escrow is taken from *)
 Lemma proposal_withdraw_facts known cur f b prop v ops : effect_proposal_withdraw known cur f b prop v = Some ops ->
-  no_creation (ops ++ fee_ops payer fp fee) /\
-  (0 <= v -> credits_ok (ops ++ fee_ops payer fp fee) /\ takes_only_from (ops ++ fee_ops payer fp fee) [f; payer]).
+  no_creation (ops ++ fee_ops payer fp fee) /\ credits_ok (ops ++ fee_ops payer fp fee) /\
+  takes_only_from (ops ++ fee_ops payer fp fee) [f; payer].
 Proof.
   unfold effect_proposal_withdraw, is_olt. intros H. open_effect H. split_guards.
   assert (cur = CUR_OLT) by lia. subst cur.
-  split; [tw_crush|intros; split; [cred_crush|deb_crush]].
+  split; [tw_crush|split; [cred_crush|deb_crush]].
 Qed.
 
 (* ---- DOMAIN_CREATE / DOMAIN_RENEW ---- guards: price > base price / fee per block; option values >= 0 are env hypotheses *)
@@ -305,3 +304,136 @@ Proof.
   pose proof (A o (or_introl eq_refl)) as K. destruct o as [s d v|s v|d v]; try contradiction.
   pose proof (move_mints_nothing c s d v H1). simpl in *. lia.
 Qed.
+
+(* ---- allegation penalty / bounty (EndBlock, guilty verdict) ---- *)
+Lemma penalty_amount_nonneg total pct dec : 0 <= total -> 0 <= pct -> 0 < dec -> 0 <= penalty_amount total pct dec.
+Proof. intros. unfold penalty_amount. apply Z.div_pos; nia. Qed.
+
+Lemma penalty_core_facts stake val bounty p bpct bdec : 0 <= p -> 0 <= bpct <= bdec -> 0 < bdec ->
+  no_creation (penalty_core stake val bounty p bpct bdec) /\ credits_ok (penalty_core stake val bounty p bpct bdec) /\
+  takes_only_from (penalty_core stake val bounty p bpct bdec) [stake].
+Proof.
+  intros P B D. pose proof E18_pos. assert (X : 0 <= p * E18) by nia.
+  assert (Y : 0 <= p * E18 * bpct / bdec) by (apply Z.div_pos; nia).
+  assert (W : p * E18 * bpct / bdec <= p * E18).
+  { apply Z.div_le_upper_bound; [lia|]. nia. }
+  unfold penalty_core. generalize dependent (p * E18 * bpct / bdec). intros y Y W.
+  generalize dependent (p * E18). intros x X W.
+  split; [tw_crush|split; [cred_crush|deb_crush]].
+Qed.
+
+Lemma penalty_ops_facts (l : gmap key Z) (stake val bounty : N) (pct dec bpct bdec : Z) :
+  0 <= val_total l val -> 0 <= pct -> 0 < dec -> 0 <= bpct <= bdec -> 0 < bdec ->
+  no_creation (penalty_ops l stake val bounty pct dec bpct bdec) /\ credits_ok (penalty_ops l stake val bounty pct dec bpct bdec) /\
+  takes_only_from (penalty_ops l stake val bounty pct dec bpct bdec) [stake].
+Proof.
+  intros T P D B BD. unfold penalty_ops. destruct (_ <? 0).
+  - split; [intros c; simpl; lia|split; [reflexivity|intros a []]].
+  - apply penalty_core_facts; auto. apply penalty_amount_nonneg; auto.
+Qed.
+
+(* ---------------- the per-kind statements in the shape of props/C02.v and props/C03.v ---------------- *)
+Lemma send_no_creation : forall known cur from to v payer fp fee ops, 0 <= fee -> effect_send known cur from to v = Some ops ->
+  no_creation (ops ++ fee_ops payer fp fee) /\ credits_ok (ops ++ fee_ops payer fp fee).
+Proof. intros known cur from to v payer fp fee ops Hfee  H. destruct (send_facts payer fp fee Hfee known cur from to v ops  H) as [A [B _]]. split; assumption. Qed.
+Lemma send_authority : forall known cur from to v payer fp fee ops, 0 <= fee -> effect_send known cur from to v = Some ops ->
+  takes_only_from (ops ++ fee_ops payer fp fee) [from; payer].
+Proof. intros known cur from to v payer fp fee ops Hfee  H. destruct (send_facts payer fp fee Hfee known cur from to v ops  H) as [_ [_ C]]. exact C. Qed.
+Lemma sendpool_no_creation : forall known cur from pool v payer fp fee ops, 0 <= fee -> effect_sendpool known cur from pool v = Some ops ->
+  no_creation (ops ++ fee_ops payer fp fee) /\ credits_ok (ops ++ fee_ops payer fp fee).
+Proof. intros known cur from pool v payer fp fee ops Hfee  H. destruct (sendpool_facts payer fp fee Hfee known cur from pool v ops  H) as [A [B _]]. split; assumption. Qed.
+Lemma sendpool_authority : forall known cur from pool v payer fp fee ops, 0 <= fee -> effect_sendpool known cur from pool v = Some ops ->
+  takes_only_from (ops ++ fee_ops payer fp fee) [from; payer].
+Proof. intros known cur from pool v payer fp fee ops Hfee  H. destruct (sendpool_facts payer fp fee Hfee known cur from pool v ops  H) as [_ [_ C]]. exact C. Qed.
+Lemma stake_no_creation : forall known cur staker val v payer fp fee ops, 0 <= fee -> effect_stake known cur staker val v = Some ops ->
+  no_creation (ops ++ fee_ops payer fp fee) /\ credits_ok (ops ++ fee_ops payer fp fee).
+Proof. intros known cur staker val v payer fp fee ops Hfee  H. destruct (stake_facts payer fp fee Hfee known cur staker val v ops  H) as [A [B _]]. split; assumption. Qed.
+Lemma stake_authority : forall known cur staker val v payer fp fee ops, 0 <= fee -> effect_stake known cur staker val v = Some ops ->
+  takes_only_from (ops ++ fee_ops payer fp fee) [staker; payer].
+Proof. intros known cur staker val v payer fp fee ops Hfee  H. destruct (stake_facts payer fp fee Hfee known cur staker val v ops  H) as [_ [_ C]]. exact C. Qed.
+Lemma unstake_no_creation : forall known cur staker val v h payer fp fee ops, 0 <= fee -> effect_unstake known cur staker val v h = Some ops ->
+  no_creation (ops ++ fee_ops payer fp fee) /\ credits_ok (ops ++ fee_ops payer fp fee).
+Proof. intros known cur staker val v h payer fp fee ops Hfee  H. destruct (unstake_facts payer fp fee Hfee known cur staker val v h ops  H) as [A [B _]]. split; assumption. Qed.
+Lemma unstake_authority : forall known cur staker val v h payer fp fee ops, 0 <= fee -> effect_unstake known cur staker val v h = Some ops ->
+  takes_only_from (ops ++ fee_ops payer fp fee) [staker; payer].
+Proof. intros known cur staker val v h payer fp fee ops Hfee  H. destruct (unstake_facts payer fp fee Hfee known cur staker val v h ops  H) as [_ [_ C]]. exact C. Qed.
+Lemma withdraw_no_creation : forall known cur staker v payer fp fee ops, 0 <= fee -> effect_withdraw known cur staker v = Some ops ->
+  no_creation (ops ++ fee_ops payer fp fee) /\ credits_ok (ops ++ fee_ops payer fp fee).
+Proof. intros known cur staker v payer fp fee ops Hfee  H. destruct (withdraw_facts payer fp fee Hfee known cur staker v ops  H) as [A [B _]]. split; assumption. Qed.
+Lemma withdraw_authority : forall known cur staker v payer fp fee ops, 0 <= fee -> effect_withdraw known cur staker v = Some ops ->
+  takes_only_from (ops ++ fee_ops payer fp fee) [staker; payer].
+Proof. intros known cur staker v payer fp fee ops Hfee  H. destruct (withdraw_facts payer fp fee Hfee known cur staker v ops  H) as [_ [_ C]]. exact C. Qed.
+Lemma delegate_no_creation : forall known cur u pool v payer fp fee ops, 0 <= fee -> effect_delegate known cur u pool v = Some ops ->
+  no_creation (ops ++ fee_ops payer fp fee) /\ credits_ok (ops ++ fee_ops payer fp fee).
+Proof. intros known cur u pool v payer fp fee ops Hfee  H. destruct (delegate_facts payer fp fee Hfee known cur u pool v ops  H) as [A [B _]]. split; assumption. Qed.
+Lemma delegate_authority : forall known cur u pool v payer fp fee ops, 0 <= fee -> effect_delegate known cur u pool v = Some ops ->
+  takes_only_from (ops ++ fee_ops payer fp fee) [u; payer].
+Proof. intros known cur u pool v payer fp fee ops Hfee  H. destruct (delegate_facts payer fp fee Hfee known cur u pool v ops  H) as [_ [_ C]]. exact C. Qed.
+Lemma undelegate_no_creation : forall known cur u pool v h payer fp fee ops, 0 <= fee -> effect_undelegate known cur u pool v h = Some ops ->
+  no_creation (ops ++ fee_ops payer fp fee) /\ credits_ok (ops ++ fee_ops payer fp fee).
+Proof. intros known cur u pool v h payer fp fee ops Hfee  H. destruct (undelegate_facts payer fp fee Hfee known cur u pool v h ops  H) as [A [B _]]. split; assumption. Qed.
+Lemma undelegate_authority : forall known cur u pool v h payer fp fee ops, 0 <= fee -> effect_undelegate known cur u pool v h = Some ops ->
+  takes_only_from (ops ++ fee_ops payer fp fee) [u; pool; payer].
+Proof. intros known cur u pool v h payer fp fee ops Hfee  H. destruct (undelegate_facts payer fp fee Hfee known cur u pool v h ops  H) as [_ [_ C]]. exact C. Qed.
+Lemma rewards_withdraw_no_creation : forall known cur u v h payer fp fee ops, 0 <= fee -> effect_rewards_withdraw known cur u v h = Some ops ->
+  no_creation (ops ++ fee_ops payer fp fee) /\ credits_ok (ops ++ fee_ops payer fp fee).
+Proof. intros known cur u v h payer fp fee ops Hfee  H. destruct (rewards_withdraw_facts payer fp fee Hfee known cur u v h ops  H) as [A [B _]]. split; assumption. Qed.
+Lemma rewards_withdraw_authority : forall known cur u v h payer fp fee ops, 0 <= fee -> effect_rewards_withdraw known cur u v h = Some ops ->
+  takes_only_from (ops ++ fee_ops payer fp fee) [u; payer].
+Proof. intros known cur u v h payer fp fee ops Hfee  H. destruct (rewards_withdraw_facts payer fp fee Hfee known cur u v h ops  H) as [_ [_ C]]. exact C. Qed.
+Lemma reinvest_no_creation : forall known cur u pool v payer fp fee ops, 0 <= fee -> effect_reinvest known cur u pool v = Some ops ->
+  no_creation (ops ++ fee_ops payer fp fee) /\ credits_ok (ops ++ fee_ops payer fp fee).
+Proof. intros known cur u pool v payer fp fee ops Hfee  H. destruct (reinvest_facts payer fp fee Hfee known cur u pool v ops  H) as [A [B _]]. split; assumption. Qed.
+Lemma reinvest_authority : forall known cur u pool v payer fp fee ops, 0 <= fee -> effect_reinvest known cur u pool v = Some ops ->
+  takes_only_from (ops ++ fee_ops payer fp fee) [u; payer].
+Proof. intros known cur u pool v payer fp fee ops Hfee  H. destruct (reinvest_facts payer fp fee Hfee known cur u pool v ops  H) as [_ [_ C]]. exact C. Qed.
+Lemma proposal_create_no_creation : forall known cur p prop v init goal payer fp fee ops, 0 <= fee -> 0 <= init -> effect_proposal_create known cur p prop v init goal = Some ops ->
+  no_creation (ops ++ fee_ops payer fp fee) /\ credits_ok (ops ++ fee_ops payer fp fee).
+Proof. intros known cur p prop v init goal payer fp fee ops Hfee Hy0 H. destruct (proposal_create_facts payer fp fee Hfee known cur p prop v init goal ops Hy0 H) as [A [B _]]. split; assumption. Qed.
+Lemma proposal_create_authority : forall known cur p prop v init goal payer fp fee ops, 0 <= fee -> 0 <= init -> effect_proposal_create known cur p prop v init goal = Some ops ->
+  takes_only_from (ops ++ fee_ops payer fp fee) [p; payer].
+Proof. intros known cur p prop v init goal payer fp fee ops Hfee Hy0 H. destruct (proposal_create_facts payer fp fee Hfee known cur p prop v init goal ops Hy0 H) as [_ [_ C]]. exact C. Qed.
+Lemma proposal_fund_no_creation : forall known cur f prop v payer fp fee ops, 0 <= fee -> effect_proposal_fund known cur f prop v = Some ops ->
+  no_creation (ops ++ fee_ops payer fp fee) /\ credits_ok (ops ++ fee_ops payer fp fee).
+Proof. intros known cur f prop v payer fp fee ops Hfee  H. destruct (proposal_fund_facts payer fp fee Hfee known cur f prop v ops  H) as [A [B _]]. split; assumption. Qed.
+Lemma proposal_fund_authority : forall known cur f prop v payer fp fee ops, 0 <= fee -> effect_proposal_fund known cur f prop v = Some ops ->
+  takes_only_from (ops ++ fee_ops payer fp fee) [f; payer].
+Proof. intros known cur f prop v payer fp fee ops Hfee  H. destruct (proposal_fund_facts payer fp fee Hfee known cur f prop v ops  H) as [_ [_ C]]. exact C. Qed.
+Lemma proposal_withdraw_no_creation : forall known cur f b prop v payer fp fee ops, 0 <= fee -> effect_proposal_withdraw known cur f b prop v = Some ops ->
+  no_creation (ops ++ fee_ops payer fp fee) /\ credits_ok (ops ++ fee_ops payer fp fee).
+Proof. intros known cur f b prop v payer fp fee ops Hfee  H. destruct (proposal_withdraw_facts payer fp fee Hfee known cur f b prop v ops  H) as [A [B _]]. split; assumption. Qed.
+Lemma proposal_withdraw_authority : forall known cur f b prop v payer fp fee ops, 0 <= fee -> effect_proposal_withdraw known cur f b prop v = Some ops ->
+  takes_only_from (ops ++ fee_ops payer fp fee) [f; payer].
+Proof. intros known cur f b prop v payer fp fee ops Hfee  H. destruct (proposal_withdraw_facts payer fp fee Hfee known cur f b prop v ops  H) as [_ [_ C]]. exact C. Qed.
+Lemma domain_create_no_creation : forall known cur o fp v base payer fee ops, 0 <= fee -> 0 <= base -> effect_domain_create known cur o fp v base = Some ops ->
+  no_creation (ops ++ fee_ops payer fp fee) /\ credits_ok (ops ++ fee_ops payer fp fee).
+Proof. intros known cur o fp v base payer fee ops Hfee Hy0 H. destruct (domain_create_facts payer fp fee Hfee known cur o v base ops Hy0 H) as [A [B _]]. split; assumption. Qed.
+Lemma domain_create_authority : forall known cur o fp v base payer fee ops, 0 <= fee -> 0 <= base -> effect_domain_create known cur o fp v base = Some ops ->
+  takes_only_from (ops ++ fee_ops payer fp fee) [o; payer].
+Proof. intros known cur o fp v base payer fee ops Hfee Hy0 H. destruct (domain_create_facts payer fp fee Hfee known cur o v base ops Hy0 H) as [_ [_ C]]. exact C. Qed.
+Lemma domain_renew_no_creation : forall known cur o fp v pb payer fee ops, 0 <= fee -> 0 <= pb -> effect_domain_renew known cur o fp v pb = Some ops ->
+  no_creation (ops ++ fee_ops payer fp fee) /\ credits_ok (ops ++ fee_ops payer fp fee).
+Proof. intros known cur o fp v pb payer fee ops Hfee Hy0 H. destruct (domain_renew_facts payer fp fee Hfee known cur o v pb ops Hy0 H) as [A [B _]]. split; assumption. Qed.
+Lemma domain_renew_authority : forall known cur o fp v pb payer fee ops, 0 <= fee -> 0 <= pb -> effect_domain_renew known cur o fp v pb = Some ops ->
+  takes_only_from (ops ++ fee_ops payer fp fee) [o; payer].
+Proof. intros known cur o fp v pb payer fee ops Hfee Hy0 H. destruct (domain_renew_facts payer fp fee Hfee known cur o v pb ops Hy0 H) as [_ [_ C]]. exact C. Qed.
+Lemma domain_purchase_no_creation : forall known cur buyer fp offer on_sale sale seller base payer fee ops, 0 <= fee -> 0 <= sale -> 0 <= base -> effect_domain_purchase known cur buyer fp offer on_sale sale seller base = Some ops ->
+  no_creation (ops ++ fee_ops payer fp fee) /\ credits_ok (ops ++ fee_ops payer fp fee).
+Proof. intros known cur buyer fp offer on_sale sale seller base payer fee ops Hfee Hy0 Hy1 H. destruct (domain_purchase_facts payer fp fee Hfee known cur buyer offer on_sale sale seller base ops Hy0 Hy1 H) as [A [B _]]. split; assumption. Qed.
+Lemma domain_purchase_authority : forall known cur buyer fp offer on_sale sale seller base payer fee ops, 0 <= fee -> 0 <= sale -> 0 <= base -> effect_domain_purchase known cur buyer fp offer on_sale sale seller base = Some ops ->
+  takes_only_from (ops ++ fee_ops payer fp fee) [buyer; payer].
+Proof. intros known cur buyer fp offer on_sale sale seller base payer fee ops Hfee Hy0 Hy1 H. destruct (domain_purchase_facts payer fp fee Hfee known cur buyer offer on_sale sale seller base ops Hy0 Hy1 H) as [_ [_ C]]. exact C. Qed.
+Lemma domain_send_no_creation : forall known cur from benef v payer fp fee ops, 0 <= fee -> effect_domain_send known cur from benef v = Some ops ->
+  no_creation (ops ++ fee_ops payer fp fee) /\ credits_ok (ops ++ fee_ops payer fp fee).
+Proof. intros known cur from benef v payer fp fee ops Hfee  H. destruct (domain_send_facts payer fp fee Hfee known cur from benef v ops  H) as [A [B _]]. split; assumption. Qed.
+Lemma domain_send_authority : forall known cur from benef v payer fp fee ops, 0 <= fee -> effect_domain_send known cur from benef v = Some ops ->
+  takes_only_from (ops ++ fee_ops payer fp fee) [from; payer].
+Proof. intros known cur from benef v payer fp fee ops Hfee  H. destruct (domain_send_facts payer fp fee Hfee known cur from benef v ops  H) as [_ [_ C]]. exact C. Qed.
+
+Lemma withdraw_reward_no_creation : forall known cur signer rpool v payer fp fee ops, 0 <= fee ->
+  effect_withdraw_reward known cur signer rpool v = Some ops ->
+  no_creation (ops ++ fee_ops payer fp fee) /\ (0 <= wrap64 v -> credits_ok (ops ++ fee_ops payer fp fee)).
+Proof. intros known cur signer rpool v payer fp fee ops Hfee H. destruct (withdraw_reward_facts payer fp fee Hfee _ _ _ _ _ _ H) as [A [_ C]]. auto. Qed.
+Lemma withdraw_reward_authority : forall known cur signer rpool v payer fp fee ops, 0 <= fee ->
+  effect_withdraw_reward known cur signer rpool v = Some ops -> takes_only_from (ops ++ fee_ops payer fp fee) [signer; rpool; payer].
+Proof. intros known cur signer rpool v payer fp fee ops Hfee H. destruct (withdraw_reward_facts payer fp fee Hfee _ _ _ _ _ _ H) as [_ [B _]]. exact B. Qed.
